@@ -467,6 +467,10 @@ _MUTATORS = {'append', 'extend', 'insert', 'pop', 'remove', 'clear', 'update',
 _EXC_CATCH_ALL = {'Exception', 'BaseException'}
 
 
+_NO_RAISE_BUILTINS = ('type', 'isinstance', 'issubclass', 'callable', 'id')
+_RESULT_CACHES = ('functools.lru_cache', 'functools.cache')
+
+
 class Interp:
     """Interpret one function (with optional inlining) over the term domain."""
 
@@ -630,7 +634,28 @@ class Interp:
     def st_Return(self, s, st):
         if s.value is None:
             return [(st, 'return', NONE)]
-        return self._ev(s.value, st, lambda s2, v: [(s2, 'return', v)])
+        return self._ev(s.value, st, lambda s2, v: [
+            (s2, 'return', self._capture(v, s2))])
+
+    def _capture(self, v, st):
+        """A nested function that leaves its defining function takes the
+        variables it reads from there with it (a closure): the values are kept
+        in the term and bound again when it is called elsewhere."""
+        if kind(v) != 'funcref' or (len(v) > 2 and kind(v[2]) == 'env'):
+            return v
+        sub = self.prog.all_funcs.get(v[1])
+        if sub is None or sub.parent is not self.fi:
+            return v
+        own = set(sub.params())
+        for n in ast.walk(sub.node):
+            if isinstance(n, ast.Name) and isinstance(n.ctx, ast.Store):
+                own.add(n.id)
+        env = {}
+        for n in ast.walk(sub.node):
+            if isinstance(n, ast.Name) and isinstance(n.ctx, ast.Load) and \
+                    n.id not in own and n.id in st.store:
+                env[n.id] = st.store[n.id]
+        return ('funcref', v[1], ('env', tuple(sorted(env.items()))))
 
     def st_Raise(self, s, st):
         if s.exc is None:
@@ -1350,6 +1375,15 @@ class Interp:
                     n.targets[0].id == s.iter.id and
                     isinstance(n.value, ast.List)
                     for n in ast.walk(self.fi.node))
+            # ... and a loop over a constant table of handlers (a class- or
+            # module-level tuple whose rows name the function to call)
+            if not (literal or built) and kind(it) in ('tuple', 'list') and \
+                    0 < len(it[1]) <= 6 and _is_closed(it) and all(
+                        kind(x[1] if kind(x) == 'item' else x) == 'tuple' and
+                        any(kind(y) in ('func', 'funcref')
+                            for y in (x[1] if kind(x) == 'item' else x)[1])
+                        for x in it[1]):
+                literal = True
             if (literal or built) and kind(it) in ('tuple', 'list') and \
                     0 < len(it[1]) <= 12 and \
                     all(kind(x) in ('tuple', 'list') or
@@ -1522,12 +1556,17 @@ class Interp:
             posonlyargs=[], args=[], kwonlyargs=[], kw_defaults=[],
             defaults=[]), body=[], decorator_list=[], lineno=0, col_offset=0)
         fi = FuncInfo(m.name + '.<module>', fake, m, cls=None)
-        sub = Interp(self.prog, env=self.env, exc_edges=False)
+        env = self.env
+        if cls is not None:
+            # names of the class body: the functions defined there
+            env = dict(self.env)
+            for k in reversed(self.prog.mro(cls)):
+                if k is cls:
+                    for mn, mf in k.methods.items():
+                        env.setdefault(mn, ('func', mf.qualname))
+        sub = Interp(self.prog, env=env, exc_edges=False)
         sub._stack.append(fi)
         st = State()
-        if cls is not None:
-            for k in reversed(self.prog.mro(cls)):
-                pass
         try:
             res = [r for r in sub.eval(node, st) if r[2] is None]
         except AnalysisError:
@@ -1540,7 +1579,7 @@ class Interp:
         k, node = self.prog.lookup_class_attr(c, name)
         if node is None:
             return None
-        v = self.eval_in_module(k.module, node)
+        v = self.eval_in_module(k.module, node, cls=k)
         return v
 
     def ex_Attribute(self, n, st):
@@ -1597,6 +1636,9 @@ class Interp:
         if c is not None:
             f = self.prog.lookup_method(c, attr)
             if f:
+                if any(isinstance(d, ast.Name) and d.id == 'staticmethod'
+                       for d in f.node.decorator_list):
+                    return ('func', f.qualname)    # no receiver is passed
                 return ('bound', b, f.qualname)
             if k != 'param' or True:
                 v = self.class_attr_term(c, attr)
@@ -2008,12 +2050,23 @@ class Interp:
         element expressions: evaluated once per element.
         `{cls._messageType: cls for cls in (A, B, C)}` is the dict it
         denotes."""
-        if len(n.generators) != 1 or ckind == 'gen' or \
-                kind(it) not in ('tuple', 'list'):
+        if len(n.generators) != 1:
             return None
-        items = [x[1] if kind(x) == 'item' else x for x in it[1]]
-        if not (0 < len(items) <= 16) or any(
-                kind(x) in ('splice', 'prefix', 'starseq') for x in it[1]):
+        if kind(it) in ('tuple', 'list'):
+            items = [x[1] if kind(x) == 'item' else x for x in it[1]]
+            if any(kind(x) in ('splice', 'prefix', 'starseq')
+                   for x in it[1]):
+                return None
+        else:
+            # a short constant sequence (a string of format codes, a range)
+            ok_, seq = try_py(it)
+            if not ok_ or isinstance(seq, dict):
+                return None
+            try:
+                items = [from_py(x) for x in seq]
+            except TypeError:
+                return None
+        if not (0 < len(items) <= 16):
             return None
         g = n.generators[0]
         rows = []
@@ -2049,6 +2102,10 @@ class Interp:
             return ('list', tuple(('item', r[0]) for r in rows))
         if ckind == 'dict':
             return ('dict', tuple((r[0], r[1]) for r in rows))
+        if ckind == 'gen':
+            # consumed once by whoever receives it (an unpacking assignment,
+            # tuple(), a loop): the sequence it produces
+            return ('tuple', tuple(r[0] for r in rows))
         return None
 
     @staticmethod
@@ -2143,6 +2200,15 @@ class Interp:
     def call(self, n, fn, args, kwargs, st):
         target = self.call_target(fn)
         site = self._site(n)
+        # functools.lru_cache(f) / lru_cache(maxsize=..)(f) / cache(f): the
+        # cached function answers as f does (generators excluded by DM.G)
+        if kind(fn) == 'call' and fn[3] and not fn[4]:
+            inner = fn[2]
+            if (fn[1] in _RESULT_CACHES or (
+                    kind(inner) == 'call' and inner[1] in _RESULT_CACHES)) \
+                    and kind(fn[3][0]) in ('func', 'funcref', 'bound'):
+                fn = fn[3][0]
+                target = self.call_target(fn)
         if kind(fn) == 'attr' and kind(fn[1]) == 'call' and \
                 fn[1][1] == 'struct.Struct' and len(fn[1][3]) == 1 and \
                 fn[2] in ('pack', 'unpack', 'unpack_from', 'pack_into',
@@ -2207,10 +2273,30 @@ class Interp:
         if kind(fn) == 'builtin' and fn[1] in _PURE_PREDICATES:
             # pure: two evaluations with equal arguments are the same value
             site = None
+        if target == 'struct.Struct' and len(args) == 1 and not kwargs:
+            # an immutable value: compiled format, no effect, no event
+            return [(st, ('call', target, fn, args, kwargs, None), None)]
         call_t = ('call', target, fn, args, kwargs, site)
         results = []
-        # exception edge
-        if self._try and self.exc_edges:
+        # exception edge - unless the callee is a helper the rules do not
+        # know, which is analysed inline: what raises in it has its own edge
+        # there (named after what actually raises)
+        helper = None
+        if kind(fn) in ('func', 'funcref'):
+            helper = self.prog.all_funcs.get(fn[1])
+        known = self.prog.known_funcs()
+        transparent = helper is not None and known is not None and \
+            helper.qualname not in known and \
+            not self.prog.is_renamed_closure(helper.qualname) and \
+            helper not in self._stack and \
+            len(self._stack) < min(self.max_depth, 4) and \
+            not _is_generator(helper.node) and \
+            not any(kind(a) == 'splice' for a in args) and \
+            not any(k == '**' for k, _ in kwargs) and \
+            self._bind(helper, args, kwargs, None) is not None
+        if kind(fn) == 'builtin' and fn[1] in _NO_RAISE_BUILTINS:
+            transparent = True      # cannot raise: no exception edge
+        if self._try and self.exc_edges and not transparent:
             s3 = st.copy()
             s3.emit(('exc-edge', target or term_str(fn), site))
             results.append((s3, None, fresh('exc', target or 'call')))
@@ -2252,6 +2338,9 @@ class Interp:
                         lnames.discard(nn)
                 else:
                     sub_state.store = {}
+                    if kind(fn) == 'funcref' and len(fn) > 2 and \
+                            kind(fn[2]) == 'env':
+                        sub_state.store.update(dict(fn[2][1]))
                 paths = self.run(callee, bound, sub_state,
                                  self_term=self_term)
                 for p in paths:
